@@ -12,7 +12,7 @@ LEVEL = 'exploration'
 BUDGET = {'quick': 150, 'thorough': 1800}
 CHUNK = 2
 RULE = ('Cases: files of 2..6 samples and a weed FASTA made of pieces of the samples (some reverse-complemented, mutated, '
-        'containing N, lower case, a fifth gzipped), random sequence, records shorter than k, everything (empty result) or nothing; a few files per run hold thousands of rows and are weeded with thousands of k-mers; the result is written in place, with -o over an existing larger file (the input must stay untouched), or with -o naming the input.  '
+        'containing N, lower case, a fifth gzipped), random sequence, records shorter than k, everything (empty result) or nothing; a few files per run hold thousands of rows and are weeded with thousands of k-mers; the result is written in place, with -o over an existing larger file (the input must stay untouched), or with -o naming the input; a quarter of the files are not called *.skf (weed uses literal file names).  '
         '`ska weed x.skf seqs.fa --min-freq 0` and `--reverse` are compared with the model (rows whose arms are / are not in '
         'the model dictionary of seqs.fa at the file\'s k and strand mode); the stored result is also decoded through the harness (k-mer integers, rows, per-row counts, container lengths); forward and reverse results must partition the '
         'original, surviving rows keep all bases, names are unchanged, a second identical weed changes nothing.  Error paths: a weed file without any split k-mer (short records, N-riddled, missing) leaves the stored content as it was (in place and with -o over an existing file), and an unwritable -o target does not end in exit 0.  In '
@@ -22,7 +22,7 @@ ASSUMPTIONS = ['frequency filtering is switched off with --min-freq 0 as the sta
                'the model dictionary of the weed file is computed by vlib/model.py']
 REQUIRED = {t: ['weed:forward', 'weed:reverse', 'partition_checked', 'idempotence_checked', 'weed_all', 'weed_nothing',
                 'single_strand_rc_not_matched', 'rows_removed', 'rows_kept', 'width64', 'width128', 'stored_objects_checked',
-                'weed_without_kmers_leaves_file_intact', 'unwritable_output_refused', 'weed_file_gzipped', 'out:inplace', 'out:same-file', 'out:other-existing-file', 'files_of_4096+_rows'] for t in ('quick', 'thorough')}
+                'weed_without_kmers_leaves_file_intact', 'unwritable_output_refused', 'files_not_named_skf', 'weed_file_gzipped', 'out:inplace', 'out:same-file', 'out:other-existing-file', 'files_of_4096+_rows'] for t in ('quick', 'thorough')}
 
 
 def builds(tier):
@@ -123,14 +123,18 @@ def run_case(desc, ctx):
         original = open(ctx.path('all.skf'), 'rb').read()
         results = {}
         for rev in (False, True):
-            ctx.write('w.skf', original)
+            # weed takes and writes literal file names (no suffix is added): a quarter of the files are not called *.skf
+            wname, oname = ('w.skf', 'wo.skf') if rng.random() < 0.75 else rng.choice([('panel.v1', 'weeded.v2'), ('w.skf.bak', 'out'), ('data', 'res.2024-06')])
+            if wname != 'w.skf' and variant == 'rel':
+                res.count('files_not_named_skf')
+            ctx.write(wname, original)
             inplace = rng.random() < 0.5
             samefile = (not inplace) and rng.random() < 0.25          # -o naming the input file itself
-            outargs = [] if inplace else ['-o', ctx.path('w.skf' if samefile else 'wo.skf')]
-            result_file = ctx.path('w.skf') if inplace or samefile else ctx.path('wo.skf')
+            outargs = [] if inplace else ['-o', ctx.path(wname if samefile else oname)]
+            result_file = ctx.path(wname) if inplace or samefile else ctx.path(oname)
             if not inplace and not samefile:
-                ctx.write('wo.skf', os.urandom(len(original) + 5000))            # an older, larger file of that name exists
-            p = ctx.sh(b, 'weed', ctx.path('w.skf'), weedfile, '--min-freq', '0', *outargs, *(['--reverse'] if rev else []))
+                ctx.write(oname, os.urandom(len(original) + 5000))            # an older, larger file of that name exists
+            p = ctx.sh(b, 'weed', ctx.path(wname), weedfile, '--min-freq', '0', *outargs, *(['--reverse'] if rev else []))
             if variant == 'rel':
                 res.count('out:' + ('inplace' if inplace else 'same-file' if samefile else 'other-existing-file'))
                 if len(T) >= 4096:
@@ -170,7 +174,7 @@ def run_case(desc, ctx):
             for f in ('k', 'rc', 'samples'):
                 if hw.get(f) != hdr.get(f):
                     bad.append('header %s changed' % f)
-            if not inplace and not samefile and open(ctx.path('w.skf'), 'rb').read() != original:
+            if not inplace and not samefile and open(ctx.path(wname), 'rb').read() != original:
                 bad.append('input file modified although -o names another file')
             if variant == 'rel' and not bad and exp:
                 # the stored object itself: decoded k-mer integers, rows, per-row counts, lengths of the parallel containers
